@@ -370,9 +370,42 @@ func (c *Ctx) c03Discard(pfx string, m *smtpModel, t *smtpTS) {
 		}
 		// only branches that an open-envelope configuration can take matter (the state and
 		// the recipient list do not change between the arm and the reset)
+		isOpen := func(cfg eng.TSConfig) bool { return cfg.A == m.states["MAIL"] || cfg.B != rcEmpty }
 		feasible := func(b *ssa.BasicBlock, k int) bool {
 			if len(b.Succs) != 2 {
 				return true
+			}
+			// a branch on a boolean parameter of a helper (resetOn(verb, clear)): feasible only
+			// if some call site that an open envelope can reach passes that truth value
+			if v, pol, ok := eng.CondTruth(b, k); ok {
+				if prm, isP := v.(*ssa.Parameter); isP {
+					g := b.Parent()
+					pi := eng.ParamIndex(prm)
+					sites := p.StaticCallSites(g)
+					possible := len(sites) == 0 || pi < 0
+					for _, cs := range sites {
+						if possible || pi >= len(cs.Args) {
+							possible = true
+							break
+						}
+						arg := cs.Args[pi]
+						if bv, isC := eng.ConstBool(arg); isC {
+							possible = possible || bv == pol
+							continue
+						}
+						for _, cfg := range t.ts.ConfigsAt(cs.Instr.(ssa.Instruction)) {
+							if !isOpen(cfg) {
+								continue
+							}
+							if val, known := t.EvalBool(arg, cfg); !known || val == pol {
+								possible = true
+							}
+						}
+					}
+					if !possible {
+						return false
+					}
+				}
 			}
 			for _, cfg := range openCfgs {
 				if _, ok := t.Refine(b, k, cfg); ok {
